@@ -214,7 +214,20 @@ def run(ctx):
                              {"method": "m_eff", "variant": v, "T": T, "t": tt, "values": vals})
                     continue
             model = "ms_m_eff_%s" % v if gen_ok else "spec_m_eff_%s" % v
-            # skip patterns where a ratio is within 2^-20 of the domain boundary of the outer function
+            # skip patterns where the argument of arccosh is within 2^-40 of its domain boundary 1 on some timeslice: the exact argument (model) and the
+            # rounded one (implementation) may then fall on different sides, e.g. three values in arithmetic progression give exactly 1.0 in floating point
+            if v == "arccosh":
+                from fractions import Fraction
+                near = False
+                for t in range(1, T - 1):
+                    if vals[t - 1] is None or vals[t] is None or vals[t + 1] is None or vals[t] == 0:
+                        continue
+                    arg = (Fraction(vals[t + 1]) + Fraction(vals[t - 1])) / (2 * Fraction(vals[t]))
+                    if abs(arg - 1) <= Fraction(1, 2 ** 40):
+                        near = True
+                if near:
+                    ctx.skip("m_eff arccosh: argument at the domain boundary")
+                    continue
             term = "(mkMC %s spec_m_eff_%s %d%%nat %s %s tol20 tol20)" % (model, v, code, _content_term(vals), _impl_term(out))
             descr = {"method": "m_eff", "variant": v, "T": T, "pattern": ["x" if k else "-" for k in pat], "values": vals, "impl": out}
             mc.append({"term": term, "descr": descr, "key": "m_eff:%s:%s" % (v, "raises" if out == "IRaises" else "wrong-slice-or-value"),
